@@ -65,12 +65,16 @@ func (c19) Enumerate(tier string, seed int64, yield func(string, core.Case) bool
 		return true
 	}
 	// process creation costs ~13 ms here: quick keeps every formula with <=1 clause and every 40th
-	// (T2) / 12th (S3) two-clause formula; thorough keeps them all
+	// (T2) / 12th (S3) two-clause formula; thorough every 5th / 2nd
 	k2 := 0
 	if !famT2(2, -1, func(f [][]int, n int) bool {
-		if len(f) == 2 && !thorough {
+		if len(f) == 2 {
 			k2++
-			if k2%40 != 0 {
+			every := 40
+			if thorough {
+				every = 5
+			}
+			if k2%every != 0 {
 				return true
 			}
 			return cnf("cnf/T2", f, n, cnfFlags[:5])
@@ -81,9 +85,13 @@ func (c19) Enumerate(tier string, seed int64, yield func(string, core.Case) bool
 	}
 	k3 := 0
 	if !famS3(2, 2, func(f [][]int, n int) bool {
-		if len(f) == 2 && !thorough {
+		if len(f) == 2 {
 			k3++
-			if k3%12 != 0 {
+			every := 12
+			if thorough {
+				every = 2
+			}
+			if k3%every != 0 {
 				return true
 			}
 			return cnf("cnf/S3", f, n, [][]string{{}, {"-count"}, {"-mus"}, {"-certified"}})
@@ -142,7 +150,11 @@ func (c19) Enumerate(tier string, seed int64, yield func(string, core.Case) bool
 	}
 	for i, a := range pa {
 		for j, cf := range costs {
-			if !thorough && (i*7+j)%389 != 0 {
+			every := 389
+			if thorough {
+				every = 23
+			}
+			if (i*7+j)%every != 0 {
 				continue
 			}
 			p := Prob{Front: "opb", N: 3, Cs: cpCons(a)}
@@ -169,7 +181,7 @@ func (c19) Enumerate(tier string, seed int64, yield func(string, core.Case) bool
 			return true
 		}
 		wn++
-		if !thorough && wn%23 != 0 {
+		if (!thorough && wn%23 != 0) || (thorough && wn%3 != 0) {
 			return true
 		}
 		mm := m
